@@ -5,9 +5,11 @@
    commutative ring).  Values of cos/sin/cosh/sinh/sqrt/exp(i.) are *inputs* (the `prims` of a
    command), computed by numpy in the harness on the same arguments the code uses.
 
-   `enum` is the order in which `list(set(...))` enumerates the used modes: an arbitrary
-   duplicate-free list, supplied from outside (the harness passes the order Python really
-   produced).  dict_indices[m] = index enum m.  ord_reg = the used registers sorted by index. *)
+   `used` is the order in which `set(...)` enumerates the used modes: an arbitrary duplicate-free
+   list, supplied from outside (the harness passes the order Python really produced).  Since the
+   "fix:" commits bc7648a / f18521d the code sorts it (used_modes = sorted(set(...))) and honours the
+   dagger flag; dict_indices[m] = index (sort used) m, ord_reg = the used registers sorted by index.
+   The behaviour before those commits is kept as `*_old` so that its refutation stays checked. *)
 From Coq Require Import List Arith Bool.
 Import ListNotations.
 From SFV Require Import C11.Lin.
@@ -96,12 +98,13 @@ Definition idx := index Nat.eqb.
 Definition gu_slots (enum ms : list nat) : list nat :=
   map (idx enum) ms ++ map (fun m => Nat.add (idx enum m) (length enum)) ms.
 
-(* one iteration of the compile loop -- the dagger flag is not consulted (as in the source) *)
+(* one iteration of the compile loop: for a daggered D/R/S/S2/BS gate the code negates params[0]
+   before building the block, for MZ/sMZ it takes U.conj().T -- gu_block (gd c) / gu_disp (gd c) *)
 Definition gu_step (enum : list nat) (acc : mat K * vec K) (c : gu_cmd) : mat K * vec K :=
   match gk c with
-  | 0 => (fst acc, shift K k0 kadd (gu_slots enum (gm c)) (gu_disp false c) (snd acc))
-  | _ => (rowop_mat K kadd kmul (gu_block false c) (gu_slots enum (gm c)) (fst acc),
-          rowop_vec K k0 kadd kmul (gu_block false c) (gu_slots enum (gm c)) (snd acc))
+  | 0 => (fst acc, shift K k0 kadd (gu_slots enum (gm c)) (gu_disp (gd c) c) (snd acc))
+  | _ => (rowop_mat K kadd kmul (gu_block (gd c) c) (gu_slots enum (gm c)) (fst acc),
+          rowop_vec K k0 kadd kmul (gu_block (gd c) c) (gu_slots enum (gm c)) (snd acc))
   end.
 
 Definition gu_run (enum : list nat) (cmds : list gu_cmd) : mat K * vec K :=
@@ -111,9 +114,21 @@ Fixpoint insert (x : nat) (l : list nat) : list nat :=
   match l with [] => [x] | h :: t => if Nat.leb x h then x :: l else h :: insert x t end.
 Definition sort (l : list nat) : list nat := fold_right insert [] l.
 
-(* what compile returns: (Snet, rnet, [r.ind for r in ord_reg]) *)
-Definition gu_compile (enum : list nat) (cmds : list gu_cmd) : mat K * vec K * list nat :=
-  (gu_run enum cmds, sort enum).
+(* what compile returns: (Snet, rnet, [r.ind for r in ord_reg]); used_modes = sorted(set(...)) *)
+Definition gu_compile (used : list nat) (cmds : list gu_cmd) : mat K * vec K * list nat :=
+  (gu_run (sort used) cmds, sort used).
+
+(* behaviour before the fix commits: rows indexed by the raw set enumeration, dagger flag not consulted *)
+Definition gu_step_old (enum : list nat) (acc : mat K * vec K) (c : gu_cmd) : mat K * vec K :=
+  match gk c with
+  | 0 => (fst acc, shift K k0 kadd (gu_slots enum (gm c)) (gu_disp false c) (snd acc))
+  | _ => (rowop_mat K kadd kmul (gu_block false c) (gu_slots enum (gm c)) (fst acc),
+          rowop_vec K k0 kadd kmul (gu_block false c) (gu_slots enum (gm c)) (snd acc))
+  end.
+Definition gu_run_old (enum : list nat) (cmds : list gu_cmd) : mat K * vec K :=
+  fold_left (gu_step_old enum) cmds (identity K k0 k1 (Nat.mul 2 (length enum)), zeros K k0 (Nat.mul 2 (length enum))).
+Definition gu_compile_old (enum : list nat) (cmds : list gu_cmd) : mat K * vec K * list nat :=
+  (gu_run_old enum cmds, sort enum).
 
 (* ---- register-level meaning ----
    global phase-space coordinates: x of mode m is coordinate 2m, p of mode m is 2m+1 *)
@@ -195,15 +210,23 @@ Definition pa_block (inv : bool) (c : pa_cmd) : list (list CK) :=
 
 Definition pa_slots (enum ms : list nat) : list nat := map (index Nat.eqb enum) ms.
 
-(* one iteration of Passive.compile's loop; the dagger flag is not consulted *)
+(* one iteration of Passive.compile's loop (dagger honoured as in gaussian_unitary) *)
 Definition pa_step (enum : list nat) (T : mat CK) (c : pa_cmd) : mat CK :=
-  rowop_mat CK (cadd K kadd) (cmul K kadd kmul ksub) (pa_block false c) (pa_slots enum (pm c)) T.
+  rowop_mat CK (cadd K kadd) (cmul K kadd kmul ksub) (pa_block (pd c) c) (pa_slots enum (pm c)) T.
 
 Definition pa_run (enum : list nat) (cmds : list pa_cmd) : mat CK :=
   fold_left (pa_step enum) cmds (identity CK (c0 K k0) (c1 K k0 k1) (length enum)).
 
-Definition pa_compile (enum : list nat) (cmds : list pa_cmd) : mat CK * list nat :=
-  (pa_run enum cmds, sort enum).
+Definition pa_compile (used : list nat) (cmds : list pa_cmd) : mat CK * list nat :=
+  (pa_run (sort used) cmds, sort used).
+
+(* behaviour before the fix commits *)
+Definition pa_step_old (enum : list nat) (T : mat CK) (c : pa_cmd) : mat CK :=
+  rowop_mat CK (cadd K kadd) (cmul K kadd kmul ksub) (pa_block false c) (pa_slots enum (pm c)) T.
+Definition pa_run_old (enum : list nat) (cmds : list pa_cmd) : mat CK :=
+  fold_left (pa_step_old enum) cmds (identity CK (c0 K k0) (c1 K k0 k1) (length enum)).
+Definition pa_compile_old (enum : list nat) (cmds : list pa_cmd) : mat CK * list nat :=
+  (pa_run_old enum cmds, sort enum).
 
 (* register-level meaning on mode amplitudes (coordinate m = mode m) *)
 Definition pa_sem (c : pa_cmd) : gcmd CK := GLin (pa_block (pd c) c) (pm c).
